@@ -136,6 +136,7 @@ struct Ctx {
     vh::Rng *rng = nullptr;
     bool in_child = false;
     int depth_cb = 0;
+    int last_named_uid = -1;    //! lookup the most recently delivered datagram names (-1: none)
     std::string &desc() { return vh::st().case_desc; }
 
     void open(int n) {
@@ -351,6 +352,7 @@ struct Ctx {
     //! probe delivery: exactly sized heap copy straight into onUdpRecv
     std::string deliver(const Bytes &dg, int srv, const char *tag) {
         Exp x = preview(dg.data(), dg.size(), srv);
+        last_named_uid = x.uid;
         desc() += vh::fmt("dg[%s,srv%d,len=%zu,id=%u,%s]; ", tag, srv, dg.size(), x.info.id, x.why.c_str());
         std::unique_ptr<uint8_t[]> buf(new uint8_t[dg.size()]);
         if (!dg.empty()) memcpy(buf.get(), dg.data(), dg.size());
